@@ -286,7 +286,10 @@ def run(ctx):
                     ctx.count()
                     qt = E.from_ast(q)
                     vals = {E.ev(qt, {"sx": a, "sy": b})[1] for a, b in models}
-                    for kind, fn in (("T", s.is_true), ("F", s.is_false)):
+                    both = [("T", s.is_true), ("F", s.is_false)]
+                    if rng.random() < 0.5:
+                        both.reverse()          # the two caches must not feed each other, whichever is asked first
+                    for kind, fn in both:
                         ans = fn(q, extra_constraints=tuple(ex_))
                         hist.append(("is_true" if kind == "T" else "is_false", i_, repr(q), [repr(c) for c in ex_], ans))
                         if ans and ((kind == "T" and False in vals) or (kind == "F" and True in vals)):
@@ -331,7 +334,10 @@ def run(ctx):
                 except E.Unsupported:
                     continue
                 vals = {E.ev(qt, {"sx": a, "sy": b})[1] for a in range(8) for b in range(8)}
-                for kind, fn in (("T", z3b.is_true), ("F", z3b.is_false)):
+                both = [("T", z3b.is_true), ("F", z3b.is_false)]
+                if len(repr(q)) % 2:
+                    both.reverse()
+                for kind, fn in both:
                     try:
                         ans = fn(q)
                     except claripy.errors.ClaripyError:
